@@ -908,4 +908,71 @@ theorem parse_encode_cached (ib final : Bytes) (hb : BOk (DASH :: DASH :: ib))
   parse_encodeG cachedContract ib final hb hvalid hfinal ps hne hok fuel hfuel s trivial hpend
 
 
+/-- a preamble: lines (without CR/LF inside, ended by CRLF) none of which is the delimiter line -/
+def preambleText (pre : List Bytes) : Bytes := pre.flatMap (· ++ [CR, LF])
+
+/-- `_skip_to_boundary` reads over a preamble (RFC 2046 5.1.1: "to be ignored"), empty lines included -/
+theorem skip_preambleG (hc : Contract rd pend Ok afterCR) (ib : Bytes) (pre : List Bytes)
+    (hpre : ∀ l ∈ pre, CR ∉ l ∧ LF ∉ l ∧ strip (l ++ [CR, LF]) ≠ DASH :: DASH :: ib) (X : Bytes) (k : Nat) :
+    ∀ r, Ok r → pend r = preambleText pre ++ X →
+      ∃ r', skipToBoundary rd ib (pre.length + k) r = skipToBoundary rd ib k r' ∧ Ok r' ∧ pend r' = X := by
+  induction pre with
+  | nil => intro r hr hp; exact ⟨r, by simp, hr, by simpa [preambleText] using hp⟩
+  | cons l pre ih =>
+    intro r hr hp
+    obtain ⟨hcr, hlf, hne⟩ := hpre l List.mem_cons_self
+    have hp' : pend r = l ++ CR :: LF :: (preambleText pre ++ X) := by
+      rw [hp]; simp [preambleText]
+    obtain ⟨h1, h2, h3⟩ := hc.full_line r l _ hr hp' hcr hlf
+    obtain ⟨r1, hr1⟩ : ∃ r1, r1 = (rd.line none r).2 := ⟨_, rfl⟩
+    rw [← hr1] at h2 h3
+    have hline : rd.line none r = (l ++ [CR, LF], r1) := by rw [hr1]; exact Prod.ext h1 rfl
+    obtain ⟨r', e, hr', hp''⟩ := ih (fun x hx => hpre x (List.mem_cons_of_mem _ hx)) r1 h3 h2
+    refine ⟨r', ?_, hr', hp''⟩
+    rw [← e]
+    have : (l :: pre).length + k = (pre.length + k) + 1 := by simp only [List.length_cons]; omega
+    rw [this]
+    simp only [skipToBoundary, hline]
+    cases l with
+    | nil => simp only [List.nil_append] at hne ⊢; simp [hne]
+    | cons a l => simp only [List.cons_append] at hne ⊢; simp [hne]
+
+/-- **C08 over any reader, bodies with a preamble.** -/
+theorem parse_encode_preambleG (hc : Contract rd pend Ok afterCR) (ib final : Bytes) (hb : BOk (DASH :: DASH :: ib))
+    (hvalid : validBoundary ib = true)
+    (hfinal : final = [CR, LF] ∨ final = []) (ps : List EPart) (hne : ps ≠ []) (hok : ∀ p ∈ ps, PartOK ib p)
+    (pre : List Bytes) (hpre : ∀ l ∈ pre, CR ∉ l ∧ LF ∉ l ∧ strip (l ++ [CR, LF]) ≠ DASH :: DASH :: ib)
+    (fuel : Nat) (hfuel : ∀ p ∈ ps, p.content.length + 3 + ps.length + pre.length < fuel)
+    (r : R) (hr : Ok r) (hpend : pend r = preambleText pre ++ encode ib final ps) :
+    parseMultipart rd ib fuel r = .ok (ps.map expected) := by
+  unfold parseMultipart
+  rw [hvalid]
+  simp only [Bool.not_true, Bool.false_eq_true, if_false]
+  obtain ⟨p0, hp0⟩ := List.exists_mem_of_ne_nil ps hne
+  have hbig := hfuel p0 hp0
+  obtain ⟨f, hf⟩ : ∃ f, fuel = pre.length + (f + 1) := ⟨fuel - pre.length - 1, by omega⟩
+  obtain ⟨r0, e0, hr0, hp0'⟩ := skip_preambleG hc ib pre hpre (encode ib final ps) (f + 1) r hr hpend
+  -- the first delimiter line
+  obtain ⟨h1, h2, h3⟩ := hc.full_line r0 (DASH :: DASH :: ib) (encBody ib final ps) hr0
+    (by rw [hp0']; simp [encode]) hb.nocr hb.nolf
+  obtain ⟨r', hr'⟩ : ∃ r', r' = (rd.line none r0).2 := ⟨_, rfl⟩
+  rw [← hr'] at h2 h3
+  have hline : rd.line none r0 = (DASH :: DASH :: ib ++ [CR, LF], r') := by rw [hr']; exact Prod.ext h1 rfl
+  have hstrip : strip (DASH :: DASH :: ib ++ [CR, LF]) = DASH :: DASH :: ib := by
+    unfold strip
+    have hd : isWs DASH = false := by decide
+    simp only [List.cons_append, List.dropWhile_cons, hd, Bool.false_eq_true, if_false]
+    obtain ⟨q, z, hq, hz⟩ := hb.last
+    have := rstrip_crlf (DASH :: DASH :: ib) q z hq hz
+    simpa using this
+  have hskip : skipToBoundary rd ib fuel r = r' := by
+    rw [hf, e0]
+    simp only [skipToBoundary, hline]
+    have hstrip' : strip (DASH :: DASH :: (ib ++ [CR, LF])) = DASH :: DASH :: ib := by simpa using hstrip
+    simp [hstrip']
+  rw [hskip]
+  exact readParts_bodyG hc ib final hb hfinal ps hne hok fuel (by
+    intro p hp; have := hfuel p hp; omega) r' h3 h2
+
+
 end Poor.Multipart
